@@ -21,10 +21,12 @@ fn histex_part(run: &mut Run, tier: &str, plans: &[HxPlan], owned: &[&str], note
     let (mut states, mut trans) = (0u64, 0u64);
     let mut fams = vec![];
     let cap_total: f64 = std::env::var("VERIF_CAP_SECS").ok().and_then(|s| s.parse().ok()).unwrap_or(if tier == "quick" { 45.0 } else if crate::common::is_sub() { 300.0 } else { 600.0 });
-    let per = cap_total / plans.len() as f64;
+    let t_start = std::time::Instant::now();
     let mut exhaustive = true;
     let mut decoder_disagreements = 0u64;
-    for p in plans {
+    for (i, p) in plans.iter().enumerate() {
+        // equal shares of what is left: time a family does not use goes to the later ones
+        let per = ((cap_total - t_start.elapsed().as_secs_f64()) / (plans.len() - i) as f64).max(cap_total / (4 * plans.len()) as f64);
         let fam = family(p.family);
         let mut depth = if tier == "quick" { p.quick_depth } else { p.thorough_depth };
         if tier == "quick" && crate::common::is_sub() {
@@ -75,6 +77,7 @@ pub fn dispatch(args: &[String]) -> i32 {
         }
         Some("worker") => crate::fparse::worker_main(),
         Some("sched-scenario") => crate::sched::scenario_main(args[1].parse().unwrap_or(0), &args[2], args[3].parse().unwrap_or(40.0)),
+        Some("sched-soak") => crate::sched::soak_main(args[1].parse().unwrap_or(100_000), args[2].parse().unwrap_or(4)),
         Some("genfix") => crate::fixtures::generate(),
         Some("checkfix") => {
             let (n, fails) = crate::fixtures::check();
@@ -126,10 +129,10 @@ pub fn run_check(prop: &str, tier: &str) -> i32 {
             let mut run = Run::new(prop, tier, "exploration");
             crate::polmat::part(&mut run, tier == "thorough", &[own]);
             // the same decision for keys that went through rotations and refreshes
-            histex_part(&mut run, tier, &[hp("auth", 3, 4)], &[own], HX);
+            histex_part(&mut run, tier, &[hp("auth", 3, 4), hp("dis", 3, 4)], &[own], HX);
             run.finish()
         }
-        "C03" => histex_check(prop, tier, &[hp("edit", 4, 6), hp("hyb", 3, 5)], &["C03."], HX),
+        "C03" => histex_check(prop, tier, &[hp("edit", 4, 6), hp("hyb", 3, 5), hp("emptyh", 6, 8)], &["C03."], HX),
         "C04" => {
             let mut run = Run::new(prop, tier, "model_checking");
             histex_part(&mut run, tier, &[hp("rot", 4, 5), hp("disrot", 4, 5), hp("rotsnap", 4, 5)], &["C04."], HX);
@@ -196,7 +199,7 @@ pub fn run_check(prop: &str, tier: &str) -> i32 {
             crate::tracing::bulk(&mut run, if tier == "quick" { 150 } else { 1000 });
             run.finish()
         }
-        "C18" => histex_check(prop, tier, &[hp("recaps", 3, 5), hp("recapshyb", 4, 5)], &["C18."], HX),
+        "C18" => histex_check(prop, tier, &[hp("recapshyb", 4, 5), hp("recapsrt", 4, 6), hp("recaps", 3, 5)], &["C18."], HX),
         "C19" => crate::sched::check(prop, tier),
         _ => machinery(&format!("no check for {prop}")),
     }
